@@ -288,7 +288,10 @@ extract_slice_indices (PyObject* index, size_t& start, size_t& end,
     }
     else if (PyInt_Check (index))
     {
-        size_t i = canonical_index (PyInt_AsSsize_t(index), totalLength);
+        Py_ssize_t pyIndex = PyInt_AsSsize_t(index);
+        if (pyIndex == -1 && PyErr_Occurred())   // does not fit: don't mistake it for -1
+            boost::python::throw_error_already_set();
+        size_t i = canonical_index (pyIndex, totalLength);
         start = i;
         end   = i + 1;
         step  = 1;
